@@ -1,5 +1,5 @@
 SPECIFICATION Spec
-CONSTANTS PairSrc = "all" CtxU = "ops3" MaxFlow = 3 KeyU = "five" Writ = "all"
+CONSTANTS PairSrc = "all" CtxU = "ops3" MaxFlow = 3 KeyU = "five" Writ = "all" NObj = 0
 INVARIANT IsPartition
 INVARIANT SnapshotsRight
 PROPERTY ResetEmpties
